@@ -385,6 +385,34 @@ fn ctxt_id() -> usize {
 
         let previous = mem::replace(current, ThreadLocalCtxtFrame { props: incoming.props.take() });
         *incoming = previous;""")]),
+ # ---- file set membership: equivalent spellings of the delimited match ------------------------------------------------------
+ ("B.membership_format_delimiters", ["C11", "C10"], "emitter/file/src/lib.rs", [
+   ("""    let Some(parts) = file_name
+        .strip_prefix(file_prefix)
+        .and_then(|rest| rest.strip_suffix(file_ext))
+        .and_then(|rest| rest.strip_prefix('.'))
+        .and_then(|rest| rest.strip_suffix('.'))
+    else {
+        return false;
+    };
+
+    parts.split('.').count() == 3""", """    let head = format!("{}.", file_prefix);
+    let tail = format!(".{}", file_ext);
+
+    if !file_name.starts_with(&head) || !file_name.ends_with(&tail) || file_name.len() < head.len() + tail.len() {
+        return false;
+    }
+
+    file_name[head.len()..file_name.len() - tail.len()].split(".").count() == 3""")]),
+ ("B.membership_inline_in_read", ["C11", "C10"], "emitter/file/src/lib.rs", [
+   ("            if is_file_in_set(file_name, file_prefix, file_ext) {", """            let own = file_name
+                .strip_prefix(file_prefix)
+                .and_then(|rest| rest.strip_suffix(file_ext))
+                .and_then(|rest| rest.strip_prefix('.'))
+                .and_then(|rest| rest.strip_suffix('.'))
+                .map(|parts| parts.split('.').count() == 3)
+                .unwrap_or(false);
+            if own {""")]),
 ]
 
 RENAMES = [
